@@ -11,7 +11,7 @@ from rv import graphlib as GL
 PROJECTS = ["a", "b", "c", "d", "e"]
 SPELL = {"a": ["a", "A"], "b": ["b", "B"], "c": ["c", "C"], "d": ["d", "D"], "e": ["e", "E"],
          "f-g": ["f-g", "F_G", "f.g"]}
-SHAPES = ["dag-free", "dag-free", "dag-conflict", "dag-conflict", "cyclic", "self", "extras", "extras", "abandon", "late-extra-cycle"]
+SHAPES = ["dag-free", "dag-free", "dag-conflict", "dag-conflict", "cyclic", "self", "extras", "extras", "abandon", "late-extra-cycle", "umbrella-extra"]
 
 
 def gen_spec(rng, p=0.45):
@@ -38,6 +38,11 @@ def gen_template(rng, shape):
         U = {P: {hi: [C + ">=" + hi, N], lo: [C]}, C: {lo: [], hi: []}, N: {v(): [D1, D2]}, D1: {v(): [C + "<" + hi]},
              D2: {v(): []}, Z: {v(): [D2]}}
         inputs = [[P, Z]] if rng.random() < 0.7 else [[P], [Z]]
+    elif shape == "umbrella-extra":
+        # a project whose extra `x` asks for the project itself with its other extra (the `pkg[all]` pattern)
+        A, S, T, R = names[:4]
+        U = {A: {v(): ['%s[y] ; extra == "x"' % A, '%s ; extra == "y"' % S, T]}, S: {v(): []}, T: {v(): []}, R: {v(): ["%s[x]" % A]}}
+        inputs = [["%s[x]" % A]] if rng.random() < 0.6 else [[R]]
     else:
         A, B, S, T = names[:4]
         ex = rng.choice(["x", "y"])
@@ -51,7 +56,7 @@ def gen_template(rng, shape):
 
 
 def gen_universe(rng, shape):
-    if shape in ("abandon", "late-extra-cycle"):
+    if shape in ("abandon", "late-extra-cycle", "umbrella-extra"):
         return gen_template(rng, shape)
     names = (PROJECTS + ["f-g"])[: rng.randint(2, 6)]
     extras_p = 0.35 if shape == "extras" else (0.12 if shape in ("cyclic", "self") else 0.1)
